@@ -62,12 +62,12 @@ func init() {
 
 // ---- C14 ----
 
-const c14Rule = "(every sixth case publishes an EMPTY index, every sixth an index whose every AddDocument failed after indexing part of the document) sequential part: an index is published, half of the queries are answered, then the builder goes through a seeded sequence of Reset / AddDocument (documents introducing new fields) / ConfigField / BuildIndex operations (always starting with Reset), then the other half is answered on the OLD index: all answers must be those of the one pure model index (Coq); through the hook the field table of the published index and the builder's are probed for aliasing; concurrent part (-race build): three goroutines query the published index while a fourth loops Reset -> AddDocument(new fields) -> BuildIndex on its builder; every answer is compared with the one taken before the builder activity and any race-detector report is a violation. op 6 adds a new document carrying the very *Conjunction object the published generation ended with; Non-trivial = some query returns a non-empty proper subset; distinct = distinct input"
+const c14Rule = "(every sixth case publishes an EMPTY index, every sixth an index whose every AddDocument failed after indexing part of the document) sequential part: an index is published, half of the queries are answered, then the builder goes through a seeded sequence of Reset / AddDocument (documents introducing new fields) / ConfigField / BuildIndex operations (always starting with Reset), then the other half is answered on the OLD index: all answers must be those of the one pure model index (Coq); through the hook the field table of the published index and the builder's are probed for aliasing; concurrent part (-race build): three goroutines query the published index while a fourth loops Reset -> AddDocument(new fields) -> BuildIndex on its builder; every answer is compared with the one taken before the builder activity and any race-detector report is a violation. op 6 adds a new document carrying the very *Conjunction object the published generation ended with; op 7 re-registers the default-holder factory with parsers over a custom hash function (parser.NewHashAllocator(fn)); Non-trivial = some query returns a non-empty proper subset; distinct = distinct input"
 
 type c14In struct {
 	C14  bool  `json:"c14"`
 	Case eCase `json:"case"`
-	Ops  []int `json:"ops"` // 0 Reset, 1 AddDocument(new field), 2 BuildIndex, 3 ConfigField(new), 4 AddDocument(known field only), 5 re-register the default-holder factory with other field parsers, 6 AddDocument(a new document carrying the SAME *Conjunction object as the last document of the published generation: documents generated from one targeting template)
+	Ops  []int `json:"ops"` // 0 Reset, 1 AddDocument(new field), 2 BuildIndex, 3 ConfigField(new), 4 AddDocument(known field only), 5 re-register the default-holder factory with other field parsers, 7 re-register the default-holder factory with parsers over a custom hash function, 6 AddDocument(a new document carrying the SAME *Conjunction object as the last document of the published generation: documents generated from one targeting template)
 }
 
 func execC14(raw json.RawMessage) (res execResult, err error) {
@@ -132,6 +132,10 @@ func execC14(raw json.RawMessage) (res execResult, err error) {
 			// with the published index's holders
 			undo := installParsers(map[int]string{0: "number", 1: "strhash", 4: "number"})
 			defer undo() // back to the stock factory when this case is over (registered last, so it runs before `restore`)
+		case 7: // a hash roll-out: from here on the default-holder factory makes holders whose parser hashes texts with a
+			// custom function (parser.NewHashAllocator(fn)); the published index keeps the stock one
+			undo := installParsers(map[int]string{0: "customhash", 1: "customhash", 4: "customhash", 9999: "customhash"})
+			defer undo()
 		case 6:
 			if template != nil {
 				d := be.NewDocument(be.DocID(7000 + n))
@@ -195,6 +199,8 @@ func init() {
 					c.Queries = append(c.Queries, eQuery{A: []eAssign{{F: 0, V: tvInt("int", a[0])}, {F: 4, V: tvInt("int", a[1])}}})
 				}
 				add(c14In{C14: true, Case: c, Ops: []int{0, 6, 2, 0, 6, 4, 2}})
+				add(c14In{C14: true, Case: c, Ops: []int{7, 0, 4, 1, 2, 0, 4, 2}})
+				add(c14In{C14: true, Case: c, Ops: []int{0, 7, 4, 1, 2}})
 			}
 			for i := 0; i < n; i++ {
 				c := mixedDocset(r, []string{"kgroups", "compact"}[(i+i/6)%2])
@@ -228,7 +234,7 @@ func init() {
 					ops = []int{0, 4, 2}
 				}
 				for k := 1 + r.Intn(19); k > 0; k-- {
-					ops = append(ops, r.Intn(7))
+					ops = append(ops, r.Intn(8))
 				}
 				if i%6 == 3 { // factory change first, then a new generation through Reset / AddDocument / BuildIndex
 					ops = append([]int{0, 5, 0, 4, 1, 2}, ops...)
